@@ -184,3 +184,20 @@ Proof.
   split; [vm_compute; tauto|]. repeat (split; [reflexivity|]).
   intros [k H]. vm_compute in H. destruct H as [H|[]]. discriminate H.
 Qed.
+
+(* FirstOrCreate, found + Assign: only the found record (the first targeted row) changes, in updatable
+   columns; FirstOrInit changes nothing *)
+Lemma foc_assign_cells s table (Hwf : wf s) selects omits ps stored mk wh x :
+  In x (out_cells (run_op s table OFocAssign selects omits ps stored mk wh)) ->
+  In (c_row x) (firstn 1 (targeted stored mk wh))
+  /\ ((exists f, In f s /\ has_col f = true /\ c_col x = f_db f /\ updatable f = true)
+      \/ lookup_field s (c_col x) = None).
+Proof.
+  cbn [run_op]. intros H. apply do_update_rows in H. destruct H as [H1 H2]. split; [exact H1|].
+  destruct (assign_map_in s table Hwf selects omits false _ _ _ H2) as [(f & A & B & C & D & _)|(A & _)];
+    [left; eauto|now right].
+Qed.
+
+Lemma foi_assign_cells s table selects omits ps stored mk wh :
+  out_cells (run_op s table OFoiAssign selects omits ps stored mk wh) = [].
+Proof. reflexivity. Qed.
